@@ -1289,7 +1289,9 @@ class CParser(RecursiveDescentParser):
         if self.token:
             # Also implement lexer hack here:
             if self.token.typ == "ID" and self.token.val in self.typedefs:
-                return True
+                # The name may be hidden by an object, function or
+                # enumeration constant declared in an inner scope:
+                return self.semantics.is_typedef_name(self.token.val)
         return False
 
     def parse_string(self):
